@@ -231,6 +231,8 @@ type BlockInfoMirror struct {
 }
 
 var schemaTypes = map[string]reflect.Type{
+	"uint":   reflect.TypeOf(uint(0)),
+	"bigv":   reflect.TypeOf(big.Int{}),
 	"u8":     reflect.TypeOf(uint8(0)),
 	"u16":    reflect.TypeOf(uint16(0)),
 	"u32":    reflect.TypeOf(uint32(0)),
@@ -273,6 +275,7 @@ var schemaTypes = map[string]reflect.Type{
 
 var (
 	bigPtrType = reflect.TypeOf((*big.Int)(nil))
+	bigValType = reflect.TypeOf(big.Int{})
 	rawType    = reflect.TypeOf(krlp.RawValue(nil))
 )
 
@@ -402,6 +405,12 @@ func ptrForm(raw json.RawMessage) (isPtr, isNil bool, inner json.RawMessage) {
 
 func wantTree(t reflect.Type, raw json.RawMessage) (interface{}, error) {
 	switch {
+	case t == bigValType:
+		var b bytesJ
+		if err := json.Unmarshal(raw, &b); err != nil {
+			return nil, err
+		}
+		return hexOf(b), nil
 	case t.Kind() == reflect.Ptr:
 		isPtr, isNil, inner := ptrForm(raw)
 		if isPtr && isNil {
@@ -490,6 +499,12 @@ func itemTree(x interface{}) interface{} {
 func gotTree(v reflect.Value) interface{} {
 	t := v.Type()
 	switch {
+	case t == bigValType:
+		bi := v.Interface().(big.Int)
+		if bi.Sign() < 0 {
+			return "NEGATIVE"
+		}
+		return hexOf(bi.Bytes())
 	case t.Kind() == reflect.Ptr:
 		if v.IsNil() {
 			return "nil"
@@ -541,6 +556,13 @@ func gotTree(v reflect.Value) interface{} {
 func build(t reflect.Type, raw json.RawMessage) (reflect.Value, error) {
 	v := reflect.New(t).Elem()
 	switch {
+	case t == bigValType:
+		var b bytesJ
+		if err := json.Unmarshal(raw, &b); err != nil {
+			return v, err
+		}
+		v.Set(reflect.ValueOf(*new(big.Int).SetBytes(b)))
+		return v, nil
 	case t.Kind() == reflect.Ptr:
 		isPtr, isNil, inner := ptrForm(raw)
 		if isPtr && isNil {
